@@ -91,6 +91,7 @@ const (
 	BRcpFatalAndSkipCleanups
 	BRcpThreeAbnormalCleanups
 	BRcpNilCleanup
+	BRcpCustomDrawnInCleanup
 	numBeh
 )
 
@@ -101,7 +102,7 @@ var behNames = [...]string{"pass", "Skip", "Errorf", "Errorf;Skip", "Fail", "Fat
 	"rcp:cleanups-then-Fatalf", "rcp:cleanups-then-Skip", "rcp:cleanups-then-panic", "rcp:cleanups-then-Errorf", "rcp:Custom-with-cleanups", "rcp:Custom-skips-once", "rcp:cleanup-registered-from-goroutine", "rcp:Custom-registers-then-Fatalf", "rcp:Custom-registers-then-panics", "rcp:last-cleanup-skips", "rcp:Skip-with-Cleanup(Errorf)",
 	"Cleanup(Errorf);Skip", "Errorf;rejected-draw", "Cleanup(Skip)", "Error()", `Errorf("")`, "FailNow@D", "div-by-zero@A", "div-by-zero@B",
 	"Cleanup(Skip);Fatalf", "Cleanup(Skip);panic", "Cleanup(rejected-draw);Fatalf", "Cleanup(rejected-draw);panic", "Errorf;Fatalf@A",
-	"rcp:two-panicking-cleanups-above-a-plain-one", "rcp:Fatalf-cleanup-and-Skip-cleanup-above-plain-ones", "rcp:three-abnormal-cleanups-interleaved", "rcp:nil-cleanup-between-real-ones"}
+	"rcp:two-panicking-cleanups-above-a-plain-one", "rcp:Fatalf-cleanup-and-Skip-cleanup-above-plain-ones", "rcp:three-abnormal-cleanups-interleaved", "rcp:nil-cleanup-between-real-ones", "rcp:Custom-drawn-inside-a-cleanup"}
 
 func (b Beh) String() string { return behNames[b] }
 
@@ -121,7 +122,7 @@ func (b Beh) Falsifies() bool {
 	switch b {
 	case BRcpTwoPanickingCleanups, BRcpFatalAndSkipCleanups, BRcpThreeAbnormalCleanups:
 		return true
-	case BRcpNilCleanup:
+	case BRcpNilCleanup, BRcpCustomDrawnInCleanup:
 		return false
 	}
 	return true
